@@ -503,6 +503,7 @@ SpDoc == [i \in 1..Len(doc) |-> Respell(doc[i])]
 QuoteInDest(d) == \E k \in 1..Len(d.defs) : \E x \in 1..Len(d.defs[k].dest) : d.defs[k].dest[x] = "'"
 EmitDoc == Emit => PrintT(ToJson([src |-> Src(doc), html |-> HtmlOf(st),
                                   skip |-> (Ambig(Fin(CloseTo(st, 1)[1]).ch) \/ QuoteInDest(Fin(CloseTo(st, 1)[1]))),
+                                  open |-> [i \in 1..(Len(st) - 1) |-> st[i + 1].k],   \* the blocks still open after the last line, outermost first
                                   srcsp |-> IF HasTab(doc) /\ SpDoc # doc THEN Src(SpDoc) ELSE "",
                                   htmlsp |-> IF HasTab(doc) /\ SpDoc # doc THEN Render(Parse(SpDoc)) ELSE ""]))
 
